@@ -22,6 +22,7 @@ import (
 type corpusCase struct {
 	Name   string `json:"name"`
 	Expect string `json:"expect"` // "known-finding" | "pass"
+	Run    string `json:"run"`    // "last": replayed after everything else (the case leaves global bindings in the pooled JS VMs)
 	What   string `json:"what"`
 	pipe.Case
 	InputText string `json:"input,omitempty"` // alternative to input_hex
@@ -87,7 +88,30 @@ func main() {
 	cfgs := pipe.AllConfigs()
 	sum.Extra["configs"] = len(cfgs)
 
-	// ---- corpus first (known findings and regression cases) ----
+	// ---- corpus first (known findings and regression cases); cases marked "run": "last" pollute
+	// the pooled JavaScript VMs of this process and are replayed after everything else ----
+	var deferred []corpusCase
+	runCorpus := func(cc corpusCase) {
+		comp, err := pipe.Compile(cc.Schema)
+		if err != nil {
+			sum.Fail("corpus schema rejected: "+cc.Name, cc.Case, err.Error())
+			return
+		}
+		vh.Current(o, cc.Case)
+		pipe.Watch("corpus " + cc.Name)
+		ts := runAll(r, comp, cc.Case)
+		pipe.Unwatch()
+		_ = pipe.CheckRetained()
+		k := differing(ts)
+		sum.Hist("corpus:" + cc.Name)
+		fmt.Printf("corpus %s key=%s differs=%v\n", cc.Name, vh.KeyOf(cc.Case), k >= 0)
+		if k >= 0 {
+			sum.Fail(cc.What, cc.Case, map[string]interface{}{
+				"all_on": runOut{cfgs[0].String(), ts[0]}, "differs": runOut{cfgs[k].String(), ts[k]}})
+		} else if cc.Expect == "known-finding" {
+			fmt.Printf("corpus %s no longer fails (finding repaired?)\n", cc.Name)
+		}
+	}
 	if o.Corpus != "" {
 		files, _ := filepath.Glob(filepath.Join(o.Corpus, "*.json"))
 		sort.Strings(files)
@@ -104,23 +128,11 @@ func main() {
 			if cc.InputHex == "" {
 				cc.Case = pipe.NewCase(cc.Format, cc.Schema, []byte(cc.InputText))
 			}
-			comp, err := pipe.Compile(cc.Schema)
-			if err != nil {
-				sum.Fail("corpus schema rejected: "+cc.Name, cc.Case, err.Error())
+			if cc.Run == "last" {
+				deferred = append(deferred, cc)
 				continue
 			}
-			vh.Current(o, cc.Case)
-			pipe.Watch("corpus " + cc.Name)
-			ts := runAll(r, comp, cc.Case)
-			k := differing(ts)
-			sum.Hist("corpus:" + cc.Name)
-			fmt.Printf("corpus %s key=%s differs=%v\n", cc.Name, vh.KeyOf(cc.Case), k >= 0)
-			if k >= 0 {
-				sum.Fail(cc.What, cc.Case, map[string]interface{}{
-					"all_on": runOut{cfgs[0].String(), ts[0]}, "differs": runOut{cfgs[k].String(), ts[k]}})
-			} else if cc.Expect == "known-finding" {
-				fmt.Printf("corpus %s no longer fails (finding repaired?)\n", cc.Name)
-			}
+			runCorpus(cc)
 		}
 	}
 
@@ -303,6 +315,9 @@ func main() {
 		cw.Add(coqTranscripts(append(ts, own)), map[string]interface{}{"case": cs})
 	}
 	concurrentProbes(o, r, sum, fmts)
+	for _, cc := range deferred { // nothing runs after these
+		runCorpus(cc)
+	}
 	cw.Flush()
 	sum.CaseFiles = cw.Files
 	sum.Write(o)
